@@ -2446,6 +2446,8 @@ class MultiUserChannelMatrixExtInt(  # pylint: disable=R0904
         # A matrix with the path loss from each transmitter to each
         # receiver.
         self._pathloss_matrix = pathloss_matrix
+        self._big_H_with_pathloss = None
+        self._H_with_pathloss = None
 
         if pathloss_matrix is None:
             self._pathloss_matrix = None
